@@ -312,6 +312,33 @@ theorem commute_xor_xor (c : Nat) (a b : I64) : Commute (.assign c .xor a) (.ass
   commute_of_fn c _ _ a b (· ^^^ a) (· ^^^ b) (xor_fn a) (xor_fn b) (by
     intro x; simp only [BitVec.xor_assoc, BitVec.xor_comm a b])
 
+/-- an assignment that leaves every value as it is commutes with every operation -/
+theorem apply_id (c : Nat) (o : AOp) (r : I64) (hid : ∀ x, o.apply x r = .ok x) (s : Store) :
+    apply s (.assign c o r) = s := by
+  rw [apply_assign, hid]
+  funext k
+  simp only [Store.set]
+  split
+  · rename_i h; rw [h]
+  · rfl
+
+theorem commute_of_id (c : Nat) (o : AOp) (r : I64) (hid : ∀ x, o.apply x r = .ok x) (b : Op) :
+    Commute (.assign c o r) b := by
+  intro s
+  rw [apply_id c o r hid, apply_id c o r hid]
+
+/-- `/= 1`, `<<= 0`, `>>= 0` are such assignments (they go through `try_exec`) -/
+theorem div_one_id (x : I64) : AOp.apply .div x 1#64 = .ok x := by
+  simp [AOp.apply, AOp.scalar, Gen.divide, IntOp.interp, firstError, Guard.holds, IntExpr.eval, BitVec.sdiv_one]
+theorem shl_zero_id (x : I64) : AOp.apply .shl x 0#64 = .ok x := by
+  simp [AOp.apply, AOp.scalar, Gen.lshift, IntOp.interp, firstError, Guard.holds, IntExpr.eval, BitVec.slt]
+theorem shr_zero_id (x : I64) : AOp.apply .shr x 0#64 = .ok x := by
+  simp [AOp.apply, AOp.scalar, Gen.rshift, IntOp.interp, firstError, Guard.holds, IntExpr.eval, BitVec.slt]
+
+/-- so `k` threads doing `c += 1` next to threads doing `c /= 1`, `c <<= 0`, `c >>= 0` still add exactly -/
+theorem commute_add_div_one (c : Nat) (a : I64) : Commute (.assign c .div 1#64) (.assign c .add a) :=
+  commute_of_id c .div 1#64 div_one_id _
+
 /-- `+=` and `*=` do NOT commute: mixed families are judged against the set of interleavings -/
 example : ¬ Commute (.assign 0 .add 1#64) (.assign 0 .mul 2#64) := by
   intro h
